@@ -142,6 +142,27 @@ def run(ctx):  # noqa: C901, PLR0912, PLR0915
     ctx.ob('C17.R1', 'notification client codings', ok,
            'SdcProvider._mk_soap_client passes the subscriber\'s accepted encodings as request_encodings', fi=pmk)
 
+    # the list of locally enabled codings is handed to clients and servers BY REFERENCE (supported_encodings=self.<attr>):
+    # reconfiguration must change it in place - re-binding the attribute leaves the objects that already hold the old list
+    # compressing / advertising with codings that were switched off
+    for cq in ('sdc11073.provider.providerimpl.SdcProvider', 'sdc11073.consumer.consumerimpl.SdcConsumer'):
+        ci = repo.cls(cq)
+        shared = set()
+        for f in ci.methods.values():
+            for c in calls_in(f.node):
+                for k in c.keywords:
+                    if k.arg == 'supported_encodings' and isinstance(k.value, ast.Attribute) and unparse(k.value.value) == 'self':
+                        shared.add(k.value.attr)
+        for attr in sorted(shared):
+            rebinds = [f'{f.name}:{n.lineno}' for f in ci.methods.values() if f.name != '__init__'
+                       for n in walk_no_nested(f.node) if isinstance(n, (ast.Assign, ast.AugAssign))
+                       for t in (n.targets if isinstance(n, ast.Assign) else [n.target])
+                       if isinstance(t, ast.Attribute) and t.attr == attr and unparse(t.value) == 'self']
+            ctx.ob('C17.R1', f'{ci.name}.{attr} shared by reference', not rebinds,
+                   f'{ci.name}.{attr} is handed out as supported_encodings and only ever changed in place' if not rebinds else
+                   f'{ci.name}.{attr} is handed out as supported_encodings by reference but re-bound in {rebinds}: soap clients '
+                   f'/ the HTTP server created before keep the old list and go on using codings that were disabled locally',
+                   where=cq, witness=rebinds)
     # ------------------------------------------------------------------ R2
     ph = repo.func(f'{CH}.parse_header')
     ok, why = _q_zero_excluded(ph.node)
